@@ -154,6 +154,11 @@ type Prop struct {
 	Components  Components
 	// Gen builds the explicit scenario (JSON-serialisable pointer) from the seed's RNG.
 	Gen func(r *RNG, tier string) any
+	// GenAt, when set, is used by the runner instead of Gen: i is the scenario's index in the
+	// run, so that a generator with hand-written templates can guarantee each of them a place
+	// in every batch instead of leaving it to a coin (the scenario stays a pure function of
+	// base seed, property and index).
+	GenAt func(i int, r *RNG, tier string) any
 	// Blank returns an empty scenario for JSON decoding of replay files.
 	Blank func() any
 	// Run executes the scenario deterministically.
